@@ -2,6 +2,7 @@ import ASV.Drv.J
 import ASV.Spec.Parallel
 import ASV.Model.Ids
 import ASV.Model.ParallelWorkers
+import ASV.Model.ParallelFilters
 namespace ASV.Drv.C18
 open Lean ASV ASV.Drv ASV.Parallel
 
@@ -84,6 +85,21 @@ def handlePrepIds (j : Json) : R Json := do
       | _ => Json.null
   return jObj [("model", model), ("shipped", shipped), ("scope", toJson true)]
 
+def optStr0 (j : Json) : R (Option String) :=
+  match j with
+  | .null => pure none
+  | _ => do return some (← asStr j)
+
+/-- the parent-side filters on `[id, length, skip]` per record (state after the sanitise stage) -/
+def handleFilters (j : Json) : R Json := do
+  let recs ← listOf (fun r => do
+    return (⟨← asStr (← idx r 0), ← asNat (← idx r 1), ← optStr0 (← idx r 2)⟩ : FRec)) (← fld j "frecs")
+  let model := match parentFilters (← strF j "target") (← natF j "minlength") (← intF j "limit") recs with
+    | .error e => jObj [("err", Json.str e)]
+    | .ok (out, hit) => jObj [("skips", jArr (out.map fun r => match r.skip with | none => Json.null | some s => Json.str s)),
+                             ("hit", toJson hit)]
+  return jObj [("model", model), ("scope", toJson true)]
+
 def optStr (j : Json) : R (Option String) :=
   match j with
   | .null => pure none
@@ -122,6 +138,7 @@ def handleWorkers (j : Json) : R Json := do
 def handle (j : Json) : R Json := do
   let kind ← strF j "kind"
   if kind == "prep_ids" then return ← handlePrepIds j
+  if kind == "filters" then return ← handleFilters j
   if kind == "workers" then return ← handleWorkers j
   let cpus ← natF j "cpus"
   let cfg ← natF j "config_cpus"
